@@ -409,6 +409,9 @@ class FnLowerS(FnLower):
         if kind == 'CXXConstructorDecl':
             self.push_scope('ctor_members')
             self.ctor_inits(n, rec)
+            if rec is not None and rec.node.get('definitionData', {}).get('isPolymorphic'):
+                # the constructor installs the dynamic type (after the base-class constructors ran)
+                self.emit('((struct %s*)self)->vf_vtag = VF_TAG_%s;' % (L.poly_root(rec).cname, rec.cname))
         self.block(f.body)
         if kind == 'CXXDestructorDecl':
             self.member_dtors(rec)
